@@ -60,9 +60,27 @@ def run(report, p):
         brk = [x for s in l1.body for x in ast.walk(s) if isinstance(x, (ast.Break, ast.Return))]
         r1.check(not brk, t, brk[0] if brk else l1, "the listing loop can be left early: later names are never visited")
         conts = [x for s in l1.body for x in ast.walk(s) if isinstance(x, ast.Continue)]
+        from .common import resolved_path_conditions
+
+        l1node = g.by_ast[id(l1)]
         for c in conts:
+            cid = g.node_for(c).id
             deps = [a for tt, l in g.control_deps(g.node_for(c)) if tt.kind == "test" for a in atomic_deps(tt.ast, l)]
             ok = any("match_file" in d and l == "T" for d, l in deps) and all(("match_file" in d or d == t.params[1]) and l == "T" for d, l in deps)
+            if not ok:
+                # the decision may sit behind a name bound on the way (result of an inlined helper): judge every feasible path to this `continue`
+                ok = True
+                n_feasible = 0
+                for kind, conds, trail in loop_iteration_paths(g, l1node):
+                    if not any(x.id == cid for x in trail):
+                        continue
+                    rc, feasible = resolved_path_conditions(g, trail)
+                    if not feasible:
+                        continue
+                    n_feasible += 1
+                    if not any("match_file" in norm(tc) and l == "T" and not isinstance(tc, (ast.For, ast.While)) for tc, l in rc):
+                        ok = False
+                ok = ok and n_feasible > 0
             r1.check(ok, t, c, f"a listed name is skipped under {deps}: only names matching the ignore patterns may be dropped", construct=f"skip under {deps}")
         # recursion loop
         # the list may be handed on under another name (children = <the list built above>)
